@@ -129,6 +129,15 @@ class Magnet():
             raise error.MagnetError(value, 'Invalid info hash')
 
     @property
+    def _infohash_hex(self):
+        # Info hash as lower-case base 16, no matter how it was specified
+        if len(self._infohash) == 40:
+            return self._infohash.lower()
+        else:
+            return base64.b16encode(
+                base64.b32decode(self._infohash.upper())).decode('utf-8').lower()
+
+    @property
     def xl(self):
         """
         eXact Length: Size in bytes or ``None``
@@ -258,12 +267,9 @@ class Magnet():
             torrent._metainfo['info']['length'] = self.xl
         if hasattr(self, '_info'):
             torrent.metainfo['info'] = self._info
-        elif len(self.infohash) == 40:
-            torrent._infohash = self.infohash
         else:
-            # Convert base 32 to base 16 (SHA1)
-            torrent._infohash = base64.b16encode(
-                base64.b32decode(self.infohash)).decode('utf-8').lower()
+            # Convert base 32 or upper-case base 16 to lower-case base 16 (SHA1)
+            torrent._infohash = self._infohash_hex
         return torrent
 
     def get_info(self, validate=True, timeout=60, callback=None):
@@ -298,7 +304,7 @@ class Magnet():
         # https://stackoverflow.com/a/1019588
         for url in self.tr:
             if url.scheme in ('http', 'https'):
-                infohash_enc = urllib.parse.quote_from_bytes(binascii.unhexlify(self.infohash))
+                infohash_enc = urllib.parse.quote_from_bytes(binascii.unhexlify(self._infohash_hex))
                 torrent_urls.append(f'{url.scheme}://{url.netloc}/file?info_hash={infohash_enc}')
 
         start = time.monotonic()
@@ -327,7 +333,7 @@ class Magnet():
             if callback:
                 callback(e)
         else:
-            if validate and self.infohash != torrent.infohash:
+            if validate and self._infohash_hex != torrent.infohash:
                 raise error.MetainfoError(f'Mismatching info hashes: {self.infohash} != {torrent.infohash}')
             elif torrent.metainfo['info']:
                 self._info = torrent.metainfo['info']
